@@ -109,23 +109,33 @@ class TracingEnvironment(simpy.Environment):
         return info
 
     # -- permutation of same-time NORMAL events -----------------------------
+    # Chosen at pop time: when the head of the heap is a NORMAL event of a
+    # permutable kind, any other NORMAL event of a permutable kind due at the
+    # same instant may be processed instead (exactly spec/TopSimStep!Cand).
     def schedule(self, event, priority=NORMAL, delay=0):
-        if self.perm is not None and priority == NORMAL and delay > 0:
-            # random tie-break among events of one target time; keeps the
-            # Monitor first (its row is defined as "state at start of step")
-            eid = next(self._eid)
-            key = self.perm.random()
-            ap = self._active_proc
-            info = self.registry.get(ap)
-            if info is not None and info.kind == "Mon":
-                key = -1.0
-            elif (self.perm_kinds is not None and info is not None
-                  and info.kind not in self.perm_kinds):
-                key = 0.0
-            heappush(self._queue, (self._now + delay, priority, (key, eid), event))
-        else:
-            heappush(self._queue,
-                     (self._now + delay, priority, (0.0, next(self._eid)), event))
+        heappush(self._queue,
+                 (self._now + delay, priority, (0.0, next(self._eid)), event))
+
+    def _permute_head(self):
+        if self.perm is None or not self._queue:
+            return
+        t0, p0, k0, ev0 = self._queue[0]
+        if p0 != NORMAL:
+            return
+        kinds = self.perm_kinds
+        lab0 = self._label(ev0, t0)["kind"]
+        if kinds is not None and lab0 not in kinds:
+            return
+        cands = [i for i, (t, p, k, ev) in enumerate(self._queue)
+                 if t == t0 and p == NORMAL
+                 and (kinds is None or self._label(ev, t)["kind"] in kinds)]
+        i = self.perm.choice(sorted(cands, key=lambda j: self._queue[j][2]))
+        if i == 0:
+            return
+        t, p, k, ev = self._queue[i]
+        self._queue[i] = (t, p, (-1.0, k[1]), ev)
+        import heapq
+        heapq.heapify(self._queue)
 
     # -- stepping -----------------------------------------------------------
     def head_label(self):
@@ -151,6 +161,7 @@ class TracingEnvironment(simpy.Environment):
         return {"kind": "??", "o": "", "k": 0, "n": 0}
 
     def step(self):
+        self._permute_head()
         lab = self.head_label()
         head_ev = self._queue[0][3] if self._queue else None
         self.last_raised = ""
